@@ -826,9 +826,8 @@ impl CertificateParams {
 								oid::BASIC_CONSTRAINTS,
 								true,
 								|writer| {
-									writer.write_sequence(|writer| {
-										writer.next().write_bool(false); // cA flag
-									});
+									// cA is `BOOLEAN DEFAULT FALSE`: DER omits a default value
+									writer.write_sequence(|_writer| {});
 								},
 							);
 						},
